@@ -400,14 +400,24 @@ func (h *c20H) do(op *c20Op) (wire, golit string, ok bool) {
 				// the model adds the members in bucket order; with one member per bucket the
 				// resulting set is the same whatever the order
 				s, _ := c20innerSetOfValue(v)
-				ids, _ := c20setFlat(v.Type().ElementType(), s)
+				ids, _, members := c20setFlatV(v.Type().ElementType(), s)
 				for i := 1; i < len(ids); i++ {
 					if ids[i] == ids[i-1] {
 						applies = false
 						return
 					}
 				}
-				hs = ids
+				for _, e := range members {
+					hs = append(hs, cty.VerifHash(e)) // the hash the member has NOW
+				}
+				for i := range hs {
+					for j := 0; j < i; j++ {
+						if hs[i] == hs[j] {
+							applies = false
+							return
+						}
+					}
+				}
 			} else {
 				_, es := c20elems(v)
 				for _, e := range es {
